@@ -39,7 +39,9 @@ def sibling_project(project, syntax, section, rng_style):
         q = rng_style.choice(['"', "'", ""])
         style = {"quote": q, "bool_true": rng_style.choice(configsyn.INI_TRUE), "bool_false": rng_style.choice(configsyn.INI_FALSE),
                  "version_quote": '"' if explicit_self else q, "ini_delim": rng_style.choice([" = ", " = ", "=", ": ", " : "]),
-                 "comment": rng_style.choice([None, "bumpver settings", "tag = True"])}
+                 "comment": rng_style.choice([None, "bumpver settings", "tag = True"]),
+                 # a single pattern written on the key's own line (`path = pattern`) instead of an indented list
+                 "ini_inline": rng_style.random() < 0.4}
         if explicit_self:
             style["version_eq"] = " = "
         if rng_style.random() < 0.5:
